@@ -345,6 +345,8 @@ class Executor:
                     return ModuleRef(imp[1])
                 return ModuleRef(imp[1])
             modname, attr = imp[1], imp[2]
+            if modname.startswith('propka') and self.repo.module(modname + '.' + attr) is not None:
+                return ModuleRef(modname + '.' + attr)
             m = self.repo.module(modname)
             if m is not None:
                 return self.lookup_global(attr, m)
